@@ -23,6 +23,7 @@ import (
 	"github.com/aergoio/aergo/v2/consensus"
 	"github.com/aergoio/aergo/v2/consensus/impl/dpos/bp"
 	"github.com/aergoio/aergo/v2/consensus/impl/dpos/slot"
+	"github.com/aergoio/aergo/v2/internal/enc/proto"
 	"github.com/aergoio/aergo/v2/state"
 	"github.com/aergoio/aergo/v2/types"
 	"github.com/aergoio/aergo/v2/zz_verif/simclock"
@@ -165,9 +166,34 @@ func (w *World) Run(x *simkit.Ctx) {
 		}
 	}
 
+	// In half of the Byzantine runs the generator starts with the long-range attack on finality: let the
+	// chain and its LIB grow, plant a short private branch (kept by the peers as a side branch), let
+	// the LIB pass its fork point, then extend the branch beyond the public chain and publish it.
+	attack := x.CfgInt("attack", func(r *simkit.Rng) int {
+		if nbyz == 1 {
+			return r.Pick(1, 1)
+		}
+		return 0
+	})
+	var script []*simkit.Step
+	if attack == 1 {
+		round := func(k int) {
+			for i := 0; i < k; i++ {
+				script = append(script, &simkit.Step{Op: "slot", V: 150}, &simkit.Step{Op: "flushnet"},
+					&simkit.Step{Op: "tick", V: int64(e.intv)*800 - 150}, &simkit.Step{Op: "flushnet"})
+			}
+		}
+		round(2*e.nbp + 2)
+		script = append(script, &simkit.Step{Op: "byz", A: kPrivateFork, B: 36 + 18 + 1, V: 0}, &simkit.Step{Op: "flushnet"}) // short, new, depth 2
+		round(3 * e.nbp)
+		script = append(script, &simkit.Step{Op: "byz", A: kPrivateFork, B: 6, V: 0}, &simkit.Step{Op: "flushnet"}) // extend + publish
+	}
 	gen := func(r *simkit.Rng) *simkit.Step {
-		if len(x.Case.Steps) >= nsteps {
+		if len(x.Case.Steps) >= nsteps+len(script) {
 			return nil
+		}
+		if k := len(x.Case.Steps); k < len(script) {
+			return script[k]
 		}
 		pending := 0
 		for _, m := range e.msgs {
@@ -582,6 +608,48 @@ func (e *env) doRestart(i int) {
 	x.Logf("restart %d lib=%d", i, an)
 }
 
+// producersBuildingOn scans the node's raw chain store and returns the distinct producers of the
+// block with the given id and of all stored descendants of it.
+func (e *env) producersBuildingOn(n *simnode.Node, id string) map[string]bool {
+	type bi struct {
+		parent string
+		bp     string
+	}
+	blocks := map[string]bi{}
+	for k, v := range n.Disk.Dump("chain") {
+		if len(k) != 32 || len(v) < 60 {
+			continue
+		}
+		var blk types.Block
+		if err := proto.Decode(v, &blk); err != nil || blk.Header == nil || len(blk.Header.PrevBlockHash) != 32 || len(blk.Header.PubKey) == 0 {
+			continue
+		}
+		blocks[blk.ID()] = bi{parent: (&types.Block{Hash: blk.Header.PrevBlockHash}).ID(), bp: blk.BPID2Str()}
+	}
+	memo := map[string]bool{id: true}
+	var under func(string, int) bool
+	under = func(b string, depth int) bool {
+		if v, ok := memo[b]; ok {
+			return v
+		}
+		x, ok := blocks[b]
+		if !ok || depth > 10000 {
+			memo[b] = false
+			return false
+		}
+		r := under(x.parent, depth+1)
+		memo[b] = r
+		return r
+	}
+	prod := map[string]bool{}
+	for b, x := range blocks {
+		if under(b, 0) {
+			prod[x.bp] = true
+		}
+	}
+	return prod
+}
+
 // pfSig tells whether the Byzantine producer published a private branch in this run.
 func (e *env) pfSig() string {
 	if e.x.Out.Stats["fault.byzantine-"+kindName[kPrivateFork]] > 0 {
@@ -707,6 +775,13 @@ func (e *env) privateFork(bz, arg, mask int) {
 	}
 	forkAt := best - depth
 	length := int(depth) + 1 + (arg/6)%3
+	if (arg/36)%2 == 1 {
+		// a branch that is NOT longer than the public chain yet: peers keep it as a side branch
+		length = int(depth) - 1
+		if length < 1 {
+			length = 1
+		}
+	}
 	e.setClock()
 	var sh *simnode.Node
 	extended := false
@@ -781,6 +856,12 @@ func (e *env) privateFork(bz, arg, mask int) {
 	for to := range e.nodes {
 		if to == bz || mask&(1<<uint(to)) == 0 || !e.nodes[to].Up || e.group[bz] != e.group[to] {
 			continue
+		}
+		if ln, _ := e.lib(to); ln > forkAt && e.correct(to) {
+			x.Probe("private-branch-published-below-a-lib")
+			if top > e.nodes[to].Best().BlockNo() {
+				x.Probe("private-branch-longer-and-below-a-lib")
+			}
 		}
 		for h := forkAt + 1; h <= top; h++ {
 			var blk *types.Block
@@ -972,15 +1053,11 @@ func (e *env) checkAll() {
 			}
 		}
 		if no > last.no {
-			// > 2/3 distinct producers on [lib, best]
-			prod := map[string]bool{}
-			for h := no; h <= best.BlockNo(); h++ {
-				var b *types.Block
-				n.Do(func() { b, _ = n.CS.VerifGetBlockByNo(h) })
-				if b != nil {
-					prod[b.BPID2Str()] = true
-				}
-			}
+			// > 2/3 distinct producers among the blocks that build on the LIB block. One delivery can
+			// connect a chain of waiting blocks (which advance the LIB) and then reorganize above the
+			// new LIB, so the confirming blocks are looked for in everything the node has stored
+			// (side branches stay in the chain DB), not only on its present main chain.
+			prod := e.producersBuildingOn(n, hash)
 			if len(prod) < need {
 				var dump string
 				n.Do(func() { dump = n.DP.VerifLibStatusDump() })
